@@ -171,6 +171,9 @@ class SymSeq:
     def __getitem__(self, j):
         if isinstance(j, slice):
             return self._slice(j)
+        if isinstance(j, SymSeq):            # numpy-style gather: x[order]
+            at, idx = self._at, j
+            return SymSeq(j.n, lambda q: at(lift(idx._at(lift(q)))), self.elem_shape, self.name + "[gather]")
         t = lift(j)
         c = ctx()
         if isinstance(j, int) and j < 0:
